@@ -5,7 +5,7 @@ import os
 from common import Check, assert_repo_import, eval_cases, eval_one, canon_tree, coq_list, z, NPROC
 import gsm_common as G
 
-IMPORTS = "Base Regex Nfa Dfa"
+IMPORTS = "Base Regex Nfa Dfa NfaShape"
 
 
 def _work(args):
@@ -29,7 +29,7 @@ def _work(args):
 def run(tier, seed, replay=None):
     assert_repo_import()
     chk = Check("C13", tier, seed)
-    model_ok = chk.proof_stage(["Gsm/Dfa.vo", "Gsm/DfaProofs.vo"])
+    model_ok = chk.proof_stage(["Gsm/Dfa.vo", "Gsm/DfaProofs.vo", "Gsm/NfaShape.vo"])
     max_size, max_len = (4, 4) if tier == "quick" else (5, 5)
     words = G.all_words([1, 2, 3], max_len) + [w for w in G.all_words([1, 2, 3, 4], 2 if tier == "quick" else 3) if 4 in w]
     exprs = list(G.all_exprs(max_size))
@@ -79,6 +79,34 @@ def run(tier, seed, replay=None):
             elif sm:
                 chk.nontrivial.add(("mixed", e, w))
             model_cases.append((f"engine_obs3 {G.to_coq(e)} {coq_list(z(x) for x in w)}", obs[:3], {"pattern": G.show(e), "word": list(w), "symbols": "mixed"}))
+    # ---- structure: the NFA the implementation builds has the SHAPE of the model's, for every small expression
+    #      (a construction that differs only for nested operators shows here long before it changes a language)
+    for e in exprs:
+        if G.n_ops(e) <= (4 if tier == "quick" else 5):
+            shp = G.guarded(lambda: G.impl_nfa_shape(e))
+            chk.evaluations += 1
+            chk.count("NFA shape compared")
+            model_cases.append((f"nfa_shape {G.to_coq(e)}", shp[1] if shp[0] == 0 else shp, {"pattern": G.show(e), "kind": "nfa-shape"}))
+    # ---- the same operator OBJECT at several positions of one pattern (structurally equal sub-trees share one instance)
+    for _ in range(500 if tier == "quick" else 10000):
+        sub = G.random_expr(rng, rng.randint(1, 3))
+        rep = (rng.choice("OSP"), sub)
+        e = (rep, ("A", rng.choice([1, 2, 3])), rep) if rng.random() < 0.5 else \
+            (("A", rng.choice([1, 2, 3])), rep, ("U", (rep,), (("A", 3), rep)))
+        for _ in range(5):
+            w = [rng.choice([1, 2, 3]) for _ in range(rng.randint(0, 6))]
+            got = [G.guarded(lambda: matcher.match(G.to_impl_shared(e), w) is not None),
+                   G.guarded(lambda: bool(matcher.nfa_match(G.to_impl_shared(e), w))),
+                   G.guarded(lambda: matcher.starts_with(G.to_impl_shared(e), w) is not None)]
+            sm, sp = G.spec_match(e, tuple(w)), G.spec_shortest_prefix(e, tuple(w))
+            chk.evaluations += 1
+            chk.count("one operator object at several positions")
+            if got != [[0, sm], [0, sm], [0, sp is not None]]:
+                chk.violation({"pattern": G.show(e), "expr": e, "word": w, "shared_objects": True},
+                              f"pattern {G.show(e)} built with ONE object for its repeated sub-pattern, on {w}: "
+                              f"match/nfa_match/starts_with -> {got}, language says {sm}/{sm}/{sp is not None}")
+            elif sm:
+                chk.nontrivial.add(("shared", e, tuple(w)))
     # ---- one pattern object used again after it was changed in place: every call must answer for the pattern as it is now
     for _ in range(300 if tier == "quick" else 6000):
         e1 = G.random_expr(rng, rng.randint(1, 6))
